@@ -156,6 +156,55 @@ def py_check(text):
     return {'struct': True, 'why': None, 'params': sorted(params), 'uses': sorted(uses), 'binds': sorted(binds)}
 
 
+def py_unescape(content):
+    """what a Cypher lexer makes of the inside of a quoted literal (only \\x -> x matters here)"""
+    return re.sub(r'\\(.)', r'\1', content, flags=re.S)
+
+
+def py_literals(text):
+    """[(start, end, unescaped content)] of the string literals of a statement"""
+    return [(m.start(), m.end(), py_unescape(m.group()[1:-1])) for m in TOKEN_RE.finditer(text)
+            if m.lastgroup in ('sq', 'dq')]
+
+
+def py_shape(text):
+    """the token sequence with every string literal abstracted: two statements with the same shape differ inside
+    string literals only"""
+    return [('STR',) if m.lastgroup in ('sq', 'dq') else (m.lastgroup, m.group())
+            for m in TOKEN_RE.finditer(text) if m.lastgroup != 'ws']
+
+
+def value_only_in_literals(text, mk, v, depth=0):
+    """the stored value v (recognised by its marker mk) occurs in `text` only inside string literals, and each of
+    those literals - read the way the lexer reads it - contains v verbatim, or is itself a statement (a nested
+    statement handed to a procedure) for which the same holds.  None if so, else what is wrong."""
+    lits = py_literals(text)
+    rest, pos = '', 0
+    for a, b, _ in lits:
+        rest += text[pos:a] + ' '
+        pos = b
+    rest += text[pos:]
+    if mk in rest:
+        return 'outside any string literal'
+    for a, b, u in lits:
+        if mk not in text[a:b]:
+            continue
+        if v in u:
+            continue
+        if depth < 3 and value_only_in_literals(u, mk, v, depth + 1) is None and py_literals(u):
+            continue
+        return 'inside a string literal but not escaped so that the literal reads back the value'
+    return None
+
+
+def arrives_in_literal(text, v, depth=0):
+    """v is read back verbatim from some string literal of the statement (or of a statement nested in one)"""
+    for _, _, u in py_literals(text):
+        if v in u or (depth < 3 and arrives_in_literal(u, v, depth + 1)):
+            return True
+    return False
+
+
 def py_wf(text, kws):
     """None if well-formed, else the reason"""
     r = py_check(text)
@@ -266,7 +315,8 @@ class FakeSession:
         ent = {'text': text if isinstance(text, str) else repr(text), 'kws': sorted(params.keys()), 'tid': None,
                'env': None, 'op': getattr(f.f_code, 'co_qualname', f.f_code.co_name), 'params': params,
                'positional': len(args)}
-        cands = [t for t in rec.templates if t['op'] == ent['op'] and t['line'] <= f.f_lineno <= t['end_line']]
+        cands = [t for t in rec.templates if t['op'] == ent['op'] and t['line'] <= f.f_lineno <= t['end_line']
+                 and t.get('nested_of') is None]
         if cands:
             k = rec.site_calls.get((ent['op'], cands[0]['site']), 0)
             rec.site_calls[(ent['op'], cands[0]['site'])] = k + 1
@@ -291,6 +341,22 @@ class FakeSession:
                 except Exception as e:
                     ent['env_error'] = repr(e)
         rec.stmts.append(ent)
+        # statements pasted (escaped) into a literal of this one - e.g. the inner statement of the APOC export -
+        # are statements too: recorded with the text the code built for them, no parameters
+        if ent['tid'] is not None:
+            for nt in rec.templates:
+                if nt.get('nested_of') != ent['tid']:
+                    continue
+                sub = {'text': None, 'kws': [], 'tid': None, 'env': None, 'op': ent['op'], 'params': {}, 'positional': 1,
+                       'nested_in': len(rec.stmts) - 1}
+                try:
+                    sub['text'] = format(eval(nt['arg_src'], f.f_globals, f.f_locals), '')
+                    sub['env'] = [format(eval(h, f.f_globals, f.f_locals), '') for h in nt['holes']]
+                    sub['tid'] = nt['id']
+                except Exception as e:
+                    sub['text'] = sub['text'] or ''
+                    sub['env_error'] = repr(e)
+                rec.stmts.append(sub)
         if len(rec.stmts) > MAX_STATEMENTS:
             raise RuntimeError('stand-in driver: statement budget exhausted')
         return FakeResult()
@@ -374,6 +440,8 @@ def adv_string(rng, benign=False):
         return mk + ''.join(rng.choice(BENIGN) for _ in range(rng.randrange(0, 6)))
     n = rng.randrange(1, 5)
     parts = [rng.choice(ADV_PIECES) for _ in range(n)]
+    if not any(c in p for p in parts for c in '\'"\\') and rng.random() < 0.8:
+        parts.append(rng.choice(["'", '"', '\\']))      # what tells a pasted value from an escaped one
     pos = rng.randrange(0, n + 1)
     parts.insert(pos, mk)
     return ''.join(parts)
@@ -634,7 +702,7 @@ def run_once(templates, op, receiver_cls, idents, shape, vals, fake=None):
         deep = []
         collect_strings(s['params'], deep)
         stmts.append({'text': s['text'], 'kws': s['kws'], 'tid': s['tid'], 'env': s['env'], 'op': s['op'],
-                      'positional': s['positional'], 'param_strings': deep})
+                      'positional': s['positional'], 'param_strings': deep, 'nested_in': s.get('nested_in')})
     return {'stmts': stmts, 'exc': exc}
 
 
@@ -824,8 +892,9 @@ class Ops(Stream):
         # (b) the text may depend on identifiers only
         if len(r1['stmts']) != len(r2['stmts']):
             return '%s: value-interpolated: the number of statements depends on stored values' % case['op']
+        #     - or, the alternative the property allows, differ inside correctly escaped string literals only
         for s1, s2 in zip(r1['stmts'], r2['stmts']):
-            if s1['text'] != s2['text']:
+            if s1['text'] != s2['text'] and py_shape(s1['text']) != py_shape(s2['text']):
                 also = py_wf(s2['text'], s2['kws'])
                 return '%s: value-interpolated: sends different text for different stored values: %r / %r%s' % (
                     s1['op'], s1['text'][:300], s2['text'][:300],
@@ -836,8 +905,18 @@ class Ops(Stream):
                 for name, v in stored:
                     mk = MARK_RE.search(v).group()
                     if mk in s['text']:
-                        return '%s: value-interpolated: pastes the stored value of %s into the text: %r' % (
-                            s['op'], name, s['text'][:300])
+                        bad = value_only_in_literals(s['text'], mk, v)
+                        if bad:
+                            return '%s: value-interpolated: pastes the stored value of %s into the text %s: %r' % (
+                                s['op'], name, bad, s['text'][:300])
+        # (b') a nested statement is what the literal of the statement around it denotes
+        for r in runs:
+            for s in r['stmts']:
+                if s.get('nested_in') is not None:
+                    outer = r['stmts'][s['nested_in']]['text']
+                    if s['text'] not in [u for _, _, u in py_literals(outer)]:
+                        return '%s: ill-formed: the statement %r pasted into a literal of %r is not what that literal ' \
+                               'reads back as' % (s['op'], s['text'][:200], outer[:200])
         # (c) well-formed, parameters supplied, variables bound - for every value
         for j, r in enumerate(runs):
             for s in r['stmts']:
@@ -862,8 +941,8 @@ class Ops(Stream):
             for name, v in stored_strings(case['shape'], vals, case['op']):
                 if name in CLIENT_SIDE_ARGS:
                     continue
-                if v not in allp:
-                    return '%s: value-lost: the stored value of %s does not reach the driver intact as a parameter' % (
+                if v not in allp and not any(arrives_in_literal(s['text'], v) for s in r['stmts']):
+                    return '%s: value-lost: the stored value of %s reaches the driver neither intact as a parameter nor as a correctly escaped literal' % (
                         case['op'], name)
         return None
 
@@ -950,7 +1029,13 @@ def py_render(t, env):
     import gen_cypher
     out = ''
     for f in t['frags']:
-        out += f.s if isinstance(f, gen_cypher.Lit) else env[t['holes'].index(f.src)]
+        if isinstance(f, gen_cypher.Lit):
+            out += f.s
+        else:
+            v = env[t['holes'].index(f.src)]
+            for _ in range(f.kind[1] if isinstance(f.kind, tuple) else 0):
+                v = gen_cypher.py_esc(v)
+            out += v
     return out
 
 
@@ -1111,7 +1196,7 @@ def witness(op, idents, shape, v1, v2, recv=None):
         t1 = [s['text'] for s in r1['stmts']]
         t2 = [s['text'] for s in r2['stmts']]
         bad = [py_wf(s['text'], s['kws']) for s in r2['stmts']]
-        still = t1 != t2
+        still = [py_shape(t) for t in t1] != [py_shape(t) for t in t2] or any(bad)
         return still, {'op': op, 'texts_value_1': t1, 'texts_value_2': t2, 'well_formedness_value_2': bad}
     return fn
 
